@@ -45,21 +45,30 @@ claim("C03", "proof",
       "images too).",
       TB, "Coq proof (navigation over value trees with per-level wire block lengths) + differential correspondence")
 claim("C04", "proof",
-      "Theorems (Properties_C04.v): the generator's independently recomputed cursor (relative, absolute) offsets agree with "
-      "the validator's for every accepted field list, and it never throws after validation. Single-call equivalence, misuse "
-      "reporting and the traversal-end theorem are stated in CursorSpec.v (proofs in progress, added to Properties_C04.v when "
-      "CursorProofs.v lands). Correspondence: Cursor.v (all five wrappers x field/group/data primitives, cursor_range "
-      "iteration, empty-entry constructor) vs /repo's generated code: complete traversals (events + final cursor = image "
-      "size) and random (member, wrapper) call sequences from init or arbitrary cursor offsets on every level view: value / "
-      "address, cursor after each call and assertion-handler outcome must all agree.",
-      TB, "Coq proof (offset agreement) + differential correspondence of an executable cursor state machine")
+      "Theorems (Properties_C04.v, 23): the generator's recomputed cursor (relative, absolute) offsets agree with the "
+      "validator's for every accepted field list and it never throws after validation; every wrapper call at the required "
+      "position returns the random-access address and leaves the cursor at the documented position; a misplaced plain / "
+      "dont_move / skip call on a field, non-first group or non-first data is reported; a complete traversal of the image of "
+      "ANY well-formed value tree (arbitrary wire block lengths) visits every member at its random-access address and ends at "
+      "the message end; every accepted schema level has a well-formed cursor table (compile_clevel total + wf). SEQUENCES: "
+      "CursorScript.run_cur -- the interpreter the correspondence driver runs -- on images at any path: a call that is "
+      "init-type, first-member or at the required position = random-access address + documented cursor, otherwise CAssert; "
+      "chain lemmas (documented after-position of member k = required position of member k+1, end of level); every legal "
+      "mixed-wrapper sequence equals the random-access spec call by call, the first misplaced call after a legal prefix is "
+      "reported and nothing after it runs. Correspondence: Cursor.v / CursorScript.v vs /repo's generated code: complete "
+      "traversals, stop-at-k visits, random (member, wrapper) call sequences from init or arbitrary cursor offsets on every "
+      "level view incl. fixed edge schemas (constant-only / member-less levels), cursor_range / cursor_subrange.",
+      TB + " cursor_range bookkeeping is judged by a Python oracle built from model addresses unless CursorRange.v is present.",
+      "Coq proof (single calls, sequences, traversal by mutual induction) + differential correspondence of the extracted interpreter")
 claim("C05", "proof",
-      "Theorems (Properties_C05.v): size_bytes(message) = |image| for every value tree; level/group walks end at the image "
-      "end; flat group size through CInt (product in size_t, as the code does after the fix) is exact whenever it fits; the "
-      "pre-fix arithmetic is refuted by vm_compute (uint16 x uint16 UB, uint32 x uint32 wrap). The trait-level formula "
-      "theorem (trait_size = |image|) is stated in CursorSpec.v (proof in progress). Correspondence: all 16 (numInGroup, "
-      "blockLength) type pairs x boundary values incl. products around 2^15/2^16/2^31/2^32 and type maxima; random images: "
-      "size_bytes(message/group/entry), cursor size after traversal and message_traits::size_bytes(counts..., total) all equal "
+      "Theorems (Properties_C05.v): size_bytes(message) = |image| for every value tree whose size fits size_t; level/group "
+      "walks end at the image end; flat group size (dimension + numInGroup x blockLength) and flat level size (header + "
+      "blockLength) through CInt in size_t are exact for every header type whenever the true size fits; the pre-fix "
+      "arithmetic of both is refuted by vm_compute (uint16 x uint16 UB, uint32 x uint32 wrap, int + uint32 wrap); the "
+      "trait-level formula message_traits::size_bytes(counts..., total_data_size) = |image|; the cursor ends at the image end "
+      "after a complete traversal. Correspondence: all 16 (numInGroup, blockLength) type pairs x boundary values incl. "
+      "products around 2^15/2^16/2^31/2^32 and type maxima; flat messages with every blockLength header type up to the type "
+      "maximum; random images: size_bytes(message/group/entry), cursor size after traversal and the trait formula all equal "
       "the image length.",
       TB, "Coq proof (size = image length by induction; C++ integer semantics via CInt) + differential correspondence")
 claim("C14", "proof",
@@ -73,26 +82,33 @@ claim("C15", "proof",
       "Coq theorems (Properties_C15.v) prove for every width 8/16/32/64, every index inside the width and every underlying value that the model of bitset_base get_bit/set_bit (written through CInt.v, i.e. with C++ integral promotion and shift UB) reads exactly bit n and changes exactly bit n; raw value/equality/visit corollaries. Tied to /repo by running the extracted model and the real bitset_base<T> plus sbeppc-generated set classes (named, by-tag, visit, ==) on the same cases (8/16 bit exhaustive values, patterns for 32/64), under g++ C++11/17(UBSan)/20 and as static_asserts (constant evaluation).",
       TB, "Coq proof (Z.testbit algebra over a CInt model) + differential correspondence vs extracted model")
 claim("C19", "proof",
-      "Correspondence-led (theorem stmt_trav_message_enc in CursorSpec.v states the event list of a complete visit = "
-      "ev_level computed from the value tree alone, members once, in schema order, at the random-access addresses, cursor at "
-      "the end; proof in progress). Check: recording visitor over sbepp::visit on random images vs Cursor.trav_message: "
-      "event order/values/addresses, member tag names in schema order, final cursor; stop at the k-th callback for every k "
-      "(exactly the first k events); get_by_tag vs named accessors for every member. Set visit is covered by C15.",
-      TB + " Partial: enum visit (unknown tag) not modelled yet; theorem not yet closed.",
-      "differential correspondence of a Coq traversal model; Coq theorem stated (proof pending)")
-
+      "Theorems (Properties_C19.v): a complete visit of the image of any well-formed value tree reports exactly ev_level "
+      "(every non-constant member and every entry once, in schema order, at the random-access address, cursor at the end); "
+      "STOP: for ALL buffers and tables, a visitor whose callback k+1 returns true sees exactly the first k events of the "
+      "complete visit (CursorStop.trav_message_stop, accessor evaluated before the callback as in the generated chain), a "
+      "budget never exhausted changes nothing, runs with larger budgets extend smaller ones, on images the prefix is the "
+      "schema-order prefix; set visit yields every declared choice with its own bit; enum visit yields the value tag or the "
+      "unknown tag. Check: recording visitor over sbepp::visit / visit_children on random images and fixed edge schemas vs "
+      "the extracted models: event order/values/addresses, member names, final cursor; stop at every k (implementation vs "
+      "CursorStop model vs prefix); composite visit_children incl. refs to constant types; get_by_tag/set_by_tag vs named "
+      "accessors for every member; enum/set visit (c19enum).",
+      TB + " by-tag access is compared with the named accessors of the implementation (no separate model).",
+      "Coq proof (traversal + stop-budget simulation by mutual induction) + differential correspondence")
 claim("C06", "proof",
       "Checked.v transcribes size_bytes_checked_visitor + the generated visit chains (assertions disabled, every read "
       "bounds-tracked). Properties_C06.v: the safety half of the property is REFUTED for the faithful model by two "
       "machine-checked witnesses (reads at offsets >= n: data length prefix read before on_data validates; fields read at "
-      "compiled offsets although only the wire blockLength was validated) -- both are recorded open findings; exactness is "
-      "decided by correspondence against the declarative specification Checked.described_fit (exact integer arithmetic). "
-      "Check: every truncation point and every blockLength/numInGroup/length overwrite (0, +-1, just fits/exceeds, type max) "
-      "of reference-encoder images, buffer ending on a PROT_NONE page, asserts off: no fault, verdict == described_fit, "
-      "callbacks <= 4(n+1)+16, implementation == model. Two defects were repaired (unbounded work for zero-length flat "
+      "compiled offsets although only the wire blockLength was validated) -- both are recorded open findings; EXACTNESS for "
+      "every table and every buffer (C06_checked_exact: valid with size s iff Checked.described_fit = Some s, invalid iff "
+      "None, whenever the run does not hit one of the two over-reads); WORK BOUND for every table and every buffer "
+      "(C06_work_bounded_by_n: no visitor loop needs more than n rounds and the callbacks are at most (W+1)(n+1), W = number "
+      "of schema members; C06_iteration_bound_irrelevant). Check: every truncation point, exact-fit cuts and every "
+      "blockLength/numInGroup/length overwrite (0, +-1, just fits/exceeds, type max) of reference-encoder images incl. "
+      "header-only messages, buffer ending on a PROT_NONE page, asserts off: no fault, verdict == described_fit, callbacks "
+      "within the proven bound, implementation == model. Two defects were repaired (unbounded work for zero-length flat "
       "entries; uint64 data length wrap).",
-      TB + " Partial: no closed theorem for exactness yet; safety holds only outside the two recorded findings.",
-      "Coq model + refutation witnesses (vm_compute) + fault enumeration (truncation/overwrite sweep) against a declarative spec")
+      TB + " Safety holds only outside the two recorded findings.",
+      "Coq proof (exactness, potential-function work bound) + refutation witnesses (vm_compute) + truncation/overwrite sweep against a declarative spec")
 claim("C12", "proof",
       "10 theorems (Properties_C12.v) over GroupIter.v, written through CInt for all 16 (numInGroup, blockLength) type pairs: "
       "begin+size=end, it[n]=*(it+n), (it+n)-n=it for both signs, distance/order = index, entry i at data start + i x wire "
@@ -117,14 +133,16 @@ claim("C16", "proof",
       TB + " Decimal floating-point attribute literals are checked by the differential run only.",
       "Coq proof (order/null algebra incl. IEEE-754 compare on bit patterns; finite literal tables by vm_compute) + differential correspondence")
 claim("C17", "proof",
-      "Theorem (Properties_C17.v): header/dimension composite members are laid out by the SBE rule inside the composite for "
-      "any order, custom offsets and extra members. The filler itself (Msg.do_fills / Layout.compile_fills: assignments of "
-      "schemaId, templateId, version, blockLength, numInGroup, numGroups, numVarDataFields at the members' offsets) is tied "
-      "by correspondence: every message and group level of random schemas with permuted/offset/ref-typed/extra header "
-      "members and optional counters, numInGroup in {0,1,7,type max,random}, random background: whole buffer afterwards "
-      "equals the model's, returned view is the header.",
-      TB + " Partial: frame/spec theorem for do_fills not yet proved.",
-      "Coq proof (composite layout) + differential correspondence of the filler model")
+      "Theorems (Properties_C17.v, 5): header/dimension composite members are laid out by the SBE rule inside the composite "
+      "for any order, custom offsets and extra members; the filler writes exactly Wire.put_fills on the header slice "
+      "(C17_filler_is_put_fills_on_header), changes no byte outside the header and keeps the length (C17_filler_frame), every "
+      "listed member reads back the schema's value (C17_filled_members_hold_schema_values), and the assignments compiled from "
+      "an accepted header composite lie inside the header (C17_compiled_fills_inside_header). Correspondence: every message "
+      "and group level of random schemas with permuted/offset/ref-typed/extra header members and optional counters, "
+      "numInGroup in {0,1,7,type max,random}, random background: whole buffer afterwards equals the model's, returned view is "
+      "the header.",
+      TB,
+      "Coq proof (composite layout, filler spec/frame/read-back) + differential correspondence of the filler model")
 claim("C20", "proof",
       "7 theorems (Properties_C20.v) over IoModel.v (plan = mkdir/write steps in compile()'s emission order, executed as "
       "primitive calls against an arbitrary fault oracle): exit 0 => every planned file exists with exactly its content; a "
